@@ -277,6 +277,13 @@ class Interp:
         if m is None:
             raise Unsupported(f"statement {type(st).__name__} (line {st.lineno})")
         m(st, env)
+        if self.frame_fn and not self.spec:
+            c = self.reg.contracts.get(self.frame_fn[-1][0])
+            if c is not None and c.ghost_after and isinstance(st, (ast.Expr, ast.Assign, ast.AugAssign, ast.Delete)):
+                g = c.ghost_after.get(ast.unparse(st))
+                if g:
+                    for gs in g:
+                        self.exec_stmt(gs, env)
 
     def st_Expr(self, st, env):
         if isinstance(st.value, ast.Constant):
@@ -826,6 +833,19 @@ class Interp:
                 return self.eval(node.args[0], _OldEnv(env, saved))
             if nm in ("forall", "exists") and self.spec:
                 return self.quant(nm, node, env)
+            if nm in ("forall_s", "exists_s") and self.spec:
+                lam = node.args[0]
+                vname = lam.args.args[0].arg
+                bname = self.ctx.fresh_name("qs_" + vname)
+                bound = z3.String(bname)
+                if not hasattr(self, "bound_names") or self.bound_names is None:
+                    self.bound_names = set()
+                self.bound_names.add(bname)
+                try:
+                    body = truthy(self.eval(lam.body, Env(env, {vname: VStr(bound, "str")})))
+                finally:
+                    self.bound_names.discard(bname)
+                return VBool(z3.ForAll([bound], body) if nm == "forall_s" else z3.Exists([bound], body))
             if nm == "implies" and self.spec:
                 a = truthy(self.eval(node.args[0], env))
                 if z3.is_false(z3.simplify(a)):
@@ -1113,6 +1133,9 @@ class Interp:
     def call_func(self, fv, args, kwargs, node):
         key = self.func_key(fv)
         c = self.reg.contracts.get(key) if key else None
+        top = self.reg.contracts.get(self.current_target) if self.current_target else None
+        if c is not None and top is not None and key in top.inline_callees:
+            c = None
         if c is not None and not c.inline and not (self.depth == 0 and key == self.current_target):
             from .callspec import apply_contract
             return apply_contract(self, c, fv, args, kwargs, node)
